@@ -9,7 +9,7 @@ import z3
 from .core import CTX, Unsupported
 from .scalar import (SReal, SBool, XInt, Fraction, INF, NINF, NAN, ITE_MODE, sqrt as ssqrt, smin, smax,
                      zbool)
-from .arr import (SArr, SSparse, asarr, coerce_elem, dtype_name, float64, int_, bool_, object_, DType,
+from .arr import (SArr, SSparse, asarr, coerce_elem, dtype_name, float64, float32, int_, bool_, object_, DType,
                   matmul, asum, amax, amin, _elementwise2, _fl, _prod, elem_dtype, common_dtype, _isnan)
 
 
@@ -440,6 +440,15 @@ def allclose(a, b, rtol=1e-5, atol=1e-8):
     return True
 
 
+def issubdtype(a, b):
+    an = dtype_name(a)
+    if b is SReal or b is float or dtype_name(b) == "float":      # np.floating / float
+        return an in ("float", "float32") if b is SReal else an == "float"
+    if b is int or dtype_name(b) == "int":
+        return an == "int"
+    return an == dtype_name(b)
+
+
 def isclose(a, b, rtol=1e-5, atol=1e-8, equal_nan=False):
     def f(x, y):
         x, y = _fl(x), _fl(y)
@@ -714,6 +723,9 @@ def build():
     np.pi = SReal(z3.Real("pi"))
     np.newaxis = None
     np.float64 = float64
+    np.float32 = float32
+    np.single = float32
+    np.issubdtype = issubdtype
     np.float_ = float64
     np.double = float64
     np.int_ = int_
